@@ -229,6 +229,28 @@ def diagnostics_receive_chains(c, geomkind='Continuous1D', n=3, N=4):
         SM._check_for_arviz = old[1]
 
 
+def diagnostics_of_function_values(c):
+    """function-value samples of an expansion geometry (more function values than parameters): the diagnostics are refused, or every entry of the result is
+    the tool's value for one row of the function-value chain - never a partially filled array"""
+    g = cuqi.geometry.StepExpansion(np.linspace(0, 1, 4), n_steps=2)
+    A = c.vec('a', 2 * 3).reshape(2, 3); B = c.vec('b', 2 * 3).reshape(2, 3)
+    f1 = Samples(A, g).funvals.vector; f2 = Samples(B, g).funvals.vector
+    az = _Arviz(); old = SM.__dict__.get('arviz'), SM._check_for_arviz
+    SM.arviz = az; SM._check_for_arviz = lambda: None
+    try:
+        for nm, call in (('ess', lambda: f1.compute_ess()), ('rhat', lambda: f1.compute_rhat(f2))):
+            try: out = call()
+            except Exception:
+                c.holds(f'{nm}_of_function_values_refused', True); continue
+            d = az.calls[-1][1]
+            c.holds(f'{nm}:the_tool_receives_one_chain_per_function_value', len(d) == 4, note=f"{len(d)} chains for 4 function values")
+            c.holds(f'{nm}:every_entry_of_the_result_is_a_value_returned_by_the_tool', list(np.ravel(out)) == [float(100 + i) for i in range(4)], note=str(np.ravel(out)))
+    finally:
+        if old[0] is None: SM.__dict__.pop('arviz', None)
+        else: SM.arviz = old[0]
+        SM._check_for_arviz = old[1]
+
+
 def jobs(tier):
     J = []
     F = lambda *n: [f"{S}:{x}" for x in n]
@@ -246,6 +268,7 @@ def jobs(tier):
         n = 4 if gk == 'Image2D' else 12 if gk.endswith('12_variables') else 5 if 'alphabetical' in gk else 3
         J.append(Job(f'Samples.diagnostics:chains_unpermuted:{gk}', lambda c, gk=gk, n=n: diagnostics_receive_chains(c, gk.split(':12')[0], n), 'Pbox',
                      F('Samples.to_arviz_inferencedata', 'Samples.compute_ess', 'Samples.compute_rhat')))
+    J.append(Job('Samples.diagnostics:function_values_of_an_expansion_geometry', diagnostics_of_function_values, 'Pbox', F('Samples.compute_ess', 'Samples.compute_rhat', 'Samples.to_arviz_inferencedata')))
     # statistics are taken on the vector form of function-value samples: the conversion contracts of C13 (column k of the vector form
     # is fun2vec of sample k, also for column-major images and mapped geometries) are claimed for this property as well
     from contracts import C13 as _c13
